@@ -138,6 +138,23 @@ func c20Check(forest []mnode) (fs []Finding, outcome string) {
 	run := &c20Run{w: kit.NewWorld(spec), spec: spec}
 	cnt := 0
 	opts := run.build(forest, nil, &cnt)
+	// building a module from a caller-owned slice must leave that slice alone
+	fp := func(l []godi.ModuleOption) string {
+		var b strings.Builder
+		for _, o := range l {
+			if o == nil {
+				b.WriteString("nil,")
+			} else {
+				fmt.Fprintf(&b, "%p,", o)
+			}
+		}
+		return b.String()
+	}
+	beforeSlice := fp(opts)
+	_ = godi.NewModule("probe", opts...)
+	if after := fp(opts); after != beforeSlice {
+		fs = append(fs, Finding{feat("clause", "caller-slice-modified"), fmt.Sprintf("NewModule(name, opts...) rewrote the caller's slice: %s -> %s", beforeSlice, after)})
+	}
 	viaModules := godi.NewCollection()
 	direct := godi.NewCollection()
 	var errM error
@@ -300,9 +317,9 @@ func c20Enumerate(r *mc.Report, n, depth, shard, nshards int) {
 
 func init() {
 	mc.Register(&mc.Check{
-		Prop: "C20",
-		Rule: "all module trees (ordered forests passed to AddModules) with <=3 leaves at module nesting <=3 and 4 leaves at nesting <=1 (quick); 4 leaves at nesting <=3 and 5 leaves at nesting <=2 (thorough); every leaf drawn from {Add ok, Add keyed ok, Add duplicating, Add with an invalid option combination, Remove, RemoveKeyed, nil entry}: a twin collection receives the flattened calls directly, stopping at the first failure; compared: deep dumps of both collections, Contains/ContainsKeyed/Count/ToSlice, Build verdict and the answers of the whole identity universe of both providers, and the error chain (exactly one ModuleError per enclosing module, outermost first, then the direct call's error; same errors.Is/As classes). distinct = (position of the failing leaf, error class, number of modules) classes.",
-		Assume: []string{"both collections register the very same function values, so dumps are comparable without renaming"},
+		Prop:        "C20",
+		Rule:        "all module trees (ordered forests passed to AddModules) with <=3 leaves at module nesting <=3 and 4 leaves at nesting <=1 (quick); 4 leaves at nesting <=3 and 5 leaves at nesting <=2 (thorough); every leaf drawn from {Add ok, Add keyed ok, Add duplicating, Add with an invalid option combination, Remove, RemoveKeyed, nil entry}: a twin collection receives the flattened calls directly, stopping at the first failure; compared: deep dumps of both collections, Contains/ContainsKeyed/Count/ToSlice, Build verdict and the answers of the whole identity universe of both providers, building a module from a caller-owned slice leaves the slice unchanged; and the error chain (exactly one ModuleError per enclosing module, outermost first, then the direct call's error; same errors.Is/As classes). distinct = (position of the failing leaf, error class, number of modules) classes.",
+		Assume:      []string{"both collections register the very same function values, so dumps are comparable without renaming"},
 		MinOutcomes: 5,
 		Jobs: func(tier string) []mc.Job {
 			var jobs []mc.Job
